@@ -146,6 +146,26 @@ CHECKS: dict[str, dict] = {
         "byte; draw()'s echo suppression included.",
         design_ref="DESIGN.md 3 C13, notes/C13.md",
     ),
+    "C14": dict(
+        technique="TLA+ model of the lock hand-over (TtyLock.tla: threads, starter, children, FIFO terminal) explored "
+        "by TLC; every interleaving edge replayed into the real lock_tty/_process_start_wrapper/"
+        "_process_run_wrapper under a cooperative scheduler; stamped traces of real thread x process runs "
+        "(fork/spawn/forkserver) validated by TLC",
+        text="TLC checks MutualExclusion, OwnReply and Reentrant on every interleaving of synchronized calls with "
+        "Process.start() (incl. grandchildren) and shows the single-acquisition variant violates them; each "
+        "explored interleaving is executed deterministically on the real code with the global read, acquire "
+        "and release as scheduling points; real multi-process runs are validated as traces.",
+        design_ref="DESIGN.md 3 C14, notes/C14.md",
+    ),
+    "C15": dict(
+        technique="TLA+ model of the terminal-fact caches (TermCache.tla) and of the memoizing decorators (Memo.tla) "
+        "explored by TLC; edges replayed on a real pty (TIOCSWINSZ, scripted responder) and under the "
+        "cooperative scheduler; seeded histories validated by TLC",
+        text="TLC checks that every get_* returns what a cache-less computation would (with the documented pixel-only "
+        "exemption) after any history of resizes, swap/query toggles and ratio modes, and BodyOnce for "
+        "concurrent first calls; every edge is replayed through the real public API on a real pty.",
+        design_ref="DESIGN.md 3 C15, notes/C15.md",
+    ),
     "C17": dict(
         technique="TLA+ transcription of the canvas trim computation (UrwidCanvas.tla) checked exhaustively and "
         "replayed into the real _ti_calc_trim; every row of real canvas.content() calls judged by TLC on "
